@@ -6,6 +6,7 @@ pub mod plan;
 pub mod planmc;
 pub mod report;
 pub mod sched;
+pub mod schedmc;
 pub mod spec;
 
 use std::sync::{Arc, Mutex};
@@ -66,7 +67,10 @@ fn cmd_check(args: &[String]) -> i32 {
     let t0 = std::time::Instant::now();
     sched::install_quiet_hook();
     let mut frag = checks::Frag::new();
-    checks::run_e1(&prop, tier, std::time::Duration::from_secs(budget_s), &mut frag);
+    let budget = std::time::Duration::from_secs(budget_s);
+    let e2_first = !checks::e2_jobs(&prop, tier).is_empty();
+    checks::run_e1(&prop, tier, if e2_first { budget / 3 } else { budget }, &mut frag);
+    checks::run_e2(&prop, tier, budget.saturating_sub(t0.elapsed()), &mut frag);
     checks::finish(&prop, tier, frag, t0.elapsed().as_secs_f64(), frag_path.as_deref())
 }
 
